@@ -224,6 +224,18 @@ def run_check(prop, spec, tier, seed):
     elif failing and proof_broken and not res.violations:
         pass
 
+    # property-specific extra checks (witness hunters that are not a model/implementation diff)
+    extra_cov = {}
+    for fn in (spec.get("extra_checks", []) if okh else []):
+        viols, cov_add = fn(prop, tier, seed, bool(proof_broken))
+        extra_cov.update(cov_add)
+        for payload, nofail, text in viols:
+            path = write_replay(prop, "extra_%d" % len(res.violations), dict(payload, property=prop))
+            # a concrete witness replaces a 'no failing input found' report of the same run
+            if not nofail:
+                res.violations = [v for v in res.violations if not v[1]]
+            res.violations.append((path, nofail, text))
+
     # known findings whose witness is checked by a dedicated routine of the spec
     for fn in (spec.get("known_finding_checks", []) if okh else []):
         for line in fn(prop, known):
@@ -259,6 +271,10 @@ def run_check(prop, spec, tier, seed):
         cov["search_evaluations"] = stats["search_evaluations"]
     cov["known_findings_reported"] = res.known_lines
     for k, v in spec.get("extra_coverage", lambda: {})().items():
+        cov[k] = v
+    for k, v in extra_cov.items():
+        if k in ("evaluations", "distinct_nontrivial", "samples", "rule") and cov.get("evaluations"):
+            continue
         cov[k] = v
     ev = collections.OrderedDict()
     ev["property_id"] = prop
